@@ -100,7 +100,8 @@ impl<'a> G<'a> {
             }
             10 | 11 => {
                 // foreach over a literal list of ints, or over a list variable
-                let nv = 1 + self.rng.below(3);
+                // now and then no loop variable at all (an error, whatever the list holds)
+                let nv = if self.rng.chance(1, 12) { 0 } else { 1 + self.rng.below(3) };
                 let vars: Vec<Term> = (0..nv).map(|i| ts(["a", "b", "z"][i])).collect();
                 let src = if self.rng.chance(1, 3) {
                     tag("lvar", vec![ts(LVARS[self.rng.below(2)])])
